@@ -127,6 +127,10 @@ func genPkgGraphs(r *vh.Rand, n int) []pkgGraph {
 		{[][][]int{{{1}}, {{2}}, {{9}}}},                     // unknown package two levels down
 		{[][][]int{{{1}, {2}}, {{}}, {{1}}}},                 // two files with different imports
 		{[][][]int{{{1}}, {{2}}, {{3}}, {{1}}}},              // cycle not through the root
+		{[][][]int{{{9}, {9}}}},                              // two files import the unknown package: located in the first
+		{[][][]int{{{}, {1}, {1}}, {{0}}}},                   // two files import a package that closes a cycle
+		{[][][]int{{{1}}, {{9, 9}, {9}}}},                    // unknown package two levels down, named twice and in two files
+		{[][][]int{{{0, 9}}}},                                // own package first, then the unknown one
 	}
 	for len(out) < n {
 		np := r.Range(1, 4)
